@@ -85,3 +85,60 @@ func verifC15NativeCheck(src, pat string, viaConfig bool) {
 	}
 	verifCheckf(len(errs) == want, "ignore-pattern-not-applied-to-every-diagnostic", pat)
 }
+
+func verifC15NativeMultiRepo(wf string, order int) {
+	tmp, err := os.MkdirTemp("", "verif-c15m-")
+	if err != nil {
+		panic(err)
+	}
+	defer os.RemoveAll(tmp)
+	tmp, _ = filepath.EvalSymlinks(tmp)
+	must := func(err error) {
+		if err != nil {
+			panic(err)
+		}
+	}
+	pats := map[string]string{"r": "undefined variable", "s": "is not defined in object type"}
+	var paths []string
+	for _, r := range []string{"r", "s"} {
+		must(os.MkdirAll(filepath.Join(tmp, r, ".github", "workflows"), 0o755))
+		must(os.MkdirAll(filepath.Join(tmp, r, ".git"), 0o755))
+		must(os.WriteFile(filepath.Join(tmp, r, ".github", "actionlint.yaml"), []byte("paths:\n  .github/workflows/*.yml:\n    ignore:\n      - "+pats[r]+"\n"), 0o644))
+		p := filepath.Join(tmp, r, ".github", "workflows", map[string]string{"r": "a.yml", "s": "b.yml"}[r])
+		must(os.WriteFile(p, []byte(wf), 0o644))
+		paths = append(paths, p)
+	}
+	old, _ := os.Getwd()
+	defer os.Chdir(old)
+	must(os.Chdir("/"))
+	digest := func(errs []*Error, base string) string {
+		out := ""
+		for _, e := range errs {
+			if filepath.Base(e.Filepath) == base {
+				out += e.Message + "\n"
+			}
+		}
+		return out
+	}
+	single := make([]string, 2)
+	for k, p := range paths {
+		l, err := NewLinter(io.Discard, &LinterOptions{})
+		must(err)
+		errs, err := l.LintFile(p, nil)
+		verifCheck(err == nil, "lint-failed")
+		single[k] = digest(errs, filepath.Base(p))
+		verifCheck(len(errs) == 1, "each-repository-ignores-one-of-the-two-diagnostics")
+	}
+	args := []string{paths[0], paths[1]}
+	if order == 1 {
+		args = []string{paths[1], paths[0]}
+	}
+	l, err := NewLinter(io.Discard, &LinterOptions{})
+	must(err)
+	errs, err := l.LintFiles(args, nil)
+	verifCheck(err == nil, "lint-failed")
+	verifReach("linted")
+	for k, p := range paths {
+		verifCheckf(digest(errs, filepath.Base(p)) == single[k], "file-filtered-by-another-repository's-configuration", p)
+	}
+}
